@@ -41,6 +41,22 @@ class FaultyBus(Bus):
             S.send_bytes(c, bytes(rng.randrange(256) for _ in range(rng.randrange(1, 40))), pick_chunks(rng))
         S.stats["faults"] += 1
 
+    def op_faultytraffic(self):
+        """a faulty peer keeps talking: requests and (WebSocket) pings whose answers cannot be delivered"""
+        S, rng = self.S, self.rng
+        live = [c for c in self.faulty if c.alive()]
+        if not live:
+            return
+        c = rng.choice(live)
+        for _ in range(rng.choice([1, 3, 12, 40])):
+            if c.transport == "ws" and c.upgraded and rng.random() < 0.5:
+                from . import wire
+                S.send_bytes(c, wire.ws_frame(9, b"q" * rng.choice([0, 10, 125]), mask=b"\x05\x06\x07\x08"))
+            else:
+                S.request(c, rng.choice(["info", "get", "nosuch"]), {})
+        self.note("faulty-traffic", c.name)
+        S.stats["faulty_traffic_bursts"] += 1
+
     def op_unstall(self):
         for c in self.faulty:
             if c.alive() and self.rng.random() < 0.3:
@@ -90,7 +106,7 @@ def faulty(case, res):
         b = FaultyBus(S, rng, dict(prm.get("opts") or {}, n_peers=(4, 6)))
         b.faulty = []
         b.start()
-        w = dict(b.DEFAULT_WEIGHTS, fault=7, unstall=2, acceptfail=2, connect=4, change=20, add=14, fetch=10)
+        w = dict(b.DEFAULT_WEIGHTS, fault=7, faultytraffic=5, unstall=2, acceptfail=2, connect=4, change=20, add=14, fetch=10)
         w.update(prm.get("weights") or {})
         names = sorted(w)
         for _ in range(prm.get("n_ops", 70)):
